@@ -306,7 +306,8 @@ def judge(case, obs):
     dly = obs.get("design_load_years")
     if dly:
         for ly in obs.get("load_years", []):
-            if ly is not None and ly != dly:
+            ly = [2019] if ly is None else ly  # an exchanger built without the keyword falls back to the default year
+            if ly != dly:
                 v("C01", "load_years_not_passed_on", f"{method}: the design holds load_years={dly} but a GHE was built with load_years={ly}", observed=ly, expected=dly)
                 break
     # ---- C02: exception type
